@@ -1,5 +1,6 @@
 CONSTANT MaxLen = 6
-CONSTANT RaceLen = 6
+CONSTANT RaceLen = 5
+CONSTANT NoticeLen = 6
 CONSTANT DriftLen = 3
 SPECIFICATION HSpec
 CONSTRAINT Export
